@@ -15,6 +15,7 @@ OPS2 = [  # (spec index, scheme expression template)
     (17, "(max {a} {b})"), (18, "(min {a} {b})"), (3, "(truncate-quotient {a} {b})"), (4, "(truncate-remainder {a} {b})"),
     (5, "(floor-remainder {a} {b})"),
 ]
+OPS2 = OPS2 + [(9, "(expt {a} {b})")][:0]
 OPS1 = [(0, "(abs {a})"), (1, "(- {a})"), (2, "(exact-integer-sqrt {a})"), (3, "(square {a})"),
         (4, "(even? {a})"), (5, "(odd? {a})"), (6, "(fixnum? {a})")]
 
@@ -61,7 +62,9 @@ def numstr(rng, v, spare_ok=True):
 
 INNER_FNS = ["add_digits", "sub_digits", "compare_abs", "bignum_add", "bignum_sub", "fxadd", "fxsub", "fxmul", "fxdiv",
              "fxrem", "normalize", "bignum_mul", "bignum_mul", "quot_rem", "quot_rem", "quot_rem", "num_add", "num_sub", "num_mul",
-             "vm_add", "vm_sub"]
+             "vm_add", "vm_sub", "num_quotient", "num_remainder", "vm_quotient", "vm_remainder", "num_quotient", "num_remainder",
+             "bignum_expt", "write_bignum", "read_number", "num_compare", "num_compare", "bignum_sqrt",
+             "ratio_normalize", "ratio_normalize", "ratio_add", "ratio_mul", "ratio_div", "ratio_compare", "ratio_compare"]
 
 
 def gen_inner(rng, pos, n):
@@ -119,9 +122,78 @@ def gen_inner(rng, pos, n):
                 b = rword(rng)
                 wb = words_of(b, rng.choice([0, 1]))
             reqs.append("quot_rem %s %s %s %s" % (sg(), wstr(wa), sg(), wstr(wb)))
+        elif f == "bignum_expt":
+            e = rng.choice([0, 1, 2, 3, 5, 8, 13, 31, 40])
+            if len(wa) * max(e, 1) > 160:
+                e = rng.choice([0, 1, 2, 3])
+            reqs.append("bignum_expt %s %s %d" % (sg(), wstr(wa), e))
+        elif f == "num_compare":
+            x = rng.choice(pos + BX) * rng.choice([1, -1])
+            y = rng.choice(pos + BX) * rng.choice([1, -1])
+            r0 = rng.random()
+            if r0 < 0.4:       # fixnum pairs far apart (difference beyond the fixnum range) and close together
+                x = rng.choice([FIXMAX, -FIXMAX - 1, FIXMAX - 1, -FIXMAX, 1 << 61, -(1 << 61), 0, 1, -1, rng.getrandbits(62) - (1 << 61)])
+                y = rng.choice([FIXMAX, -FIXMAX - 1, FIXMAX - 1, -FIXMAX, 1 << 61, -(1 << 61), 0, 1, -1, rng.getrandbits(62) - (1 << 61)])
+            elif r0 < 0.6:
+                y = x + rng.choice([0, 1, -1])
+            reqs.append("num_compare %s %s" % (numstr(rng, x, True), numstr(rng, y, True)))
+        elif f == "bignum_sqrt":
+            v = rng.choice([p_ for p_ in pos if (1 << 62) <= p_ < (1 << 520)] or [1 << 100])
+            if rng.random() < 0.5:
+                t = rng.getrandbits(rng.choice([31, 32, 40, 64, 100, 200])) + (1 << 31)
+                v = t * t + rng.choice([0, 0, 1, -1, 2 * t, 2 * t + 1])
+            reqs.append("bignum_sqrt %s" % wstr(words_of(v, rng.choice([0, 0, 1]))))
+        elif f.startswith("ratio_"):
+            def rn(nonzero=False, positive=False):
+                v = rng.choice(BX + [3, -3, 6, 7, 10, -10, 1 << 32, (1 << 62) * 3, (1 << 64) * 5, rng.getrandbits(rng.choice([4, 30, 62, 64, 130, 200])) * rng.choice([1, -1])]
+                               + [p_ for p_ in pos if p_ < (1 << 260)][:50])
+                if (nonzero or positive) and v == 0:
+                    v = 7
+                return abs(v) if positive else v
+            if f == "ratio_normalize":
+                n, dd = rn(), rn(nonzero=True)
+                if rng.random() < 0.4:
+                    g = rn(nonzero=True)
+                    n, dd = n * g, dd * g
+                reqs.append("ratio_normalize %s %s" % (numstr(rng, n, False), numstr(rng, dd, False)))
+            else:
+                na, da, nb, db = rn(), rn(positive=True), rn(nonzero=(f == "ratio_div")), rn(positive=True)
+                if f == "ratio_compare" and rng.random() < 0.4:      # cross products that are fixnums far apart
+                    na, da = rng.choice([FIXMAX // 7, -(FIXMAX // 7), FIXMAX // 3, -(FIXMAX // 2), 1, -1]), rng.choice([1, 2, 3])
+                    nb, db = rng.choice([FIXMAX // 2, -(FIXMAX // 2), FIXMAX // 3, -(FIXMAX // 3), 1, -1]), rng.choice([7, 3, 2, 1])
+                reqs.append("%s %s %s %s %s" % (f, numstr(rng, na, False), numstr(rng, da, False), numstr(rng, nb, False), numstr(rng, db, False)))
+        elif f == "write_bignum":
+            reqs.append("write_bignum %s %d" % (wstr(wa), rng.choice([2, 3, 8, 10, 10, 16, 36, rng.randrange(2, 37)])))
+        elif f == "read_number":
+            base = rng.choice([2, 8, 10, 10, 16, 16, 3, 7, 12])
+            v = rng.choice(pos + [FIXMAX, FIXMAX + 1, FIXMAX - 1, (FIXMAX + 1) // base, (FIXMAX + 1) // base + 1, FIXMAX // base])
+            txt, t = "", v
+            while True:
+                txt = DIG[t % base] + txt
+                t //= base
+                if not t:
+                    break
+            if rng.random() < 0.2:
+                txt = "0" * rng.randrange(1, 4) + txt
+            if rng.random() < 0.3:
+                txt = "".join(c.upper() if rng.random() < 0.5 else c for c in txt)
+            reqs.append("read_number %d %s" % (base, txt))
         else:
             x = rng.choice(pos) * rng.choice([1, -1])
             y = rng.choice(pos) * rng.choice([1, -1])
+            if f in ("num_quotient", "num_remainder", "vm_quotient", "vm_remainder"):
+                r0 = rng.random()
+                if r0 < 0.35:
+                    x = rng.choice(BX + [rng.getrandbits(62) - (1 << 61)])
+                    y = rng.choice(BX + [3, -3, 7, 1 << 31, rng.getrandbits(62) - (1 << 61)])
+                elif r0 < 0.5:
+                    y = rng.choice([1, -1, 2, -2, 4, 1 << 32, -(1 << 32), 10, FIXMAX, -FIXMAX - 1, rng.getrandbits(40) + 1])
+                elif r0 < 0.65 and y:
+                    x = y * rng.choice(pos[:40]) + rng.choice([0, 1, -1])
+                if y == 0 and (f.startswith("num_") and -(1 << 62) <= x <= FIXMAX):
+                    y = 1          # sexp_quotient(fixnum, 0) traps in C (the VM tests for 0 before calling)
+                reqs.append("%s %s %s" % (f, numstr(rng, x, False), numstr(rng, y, False)))
+                continue
             r = rng.random()
             if r < 0.35:     # fixnum pairs around the overflow boundary
                 x = rng.choice([0, 1, -1, FIXMAX, -FIXMAX - 1, FIXMAX - 1, -FIXMAX, 1 << 61, -(1 << 61), (1 << 31), -(1 << 31), 3037000500, rng.getrandbits(62) - (1 << 61)])
@@ -133,6 +205,9 @@ def gen_inner(rng, pos, n):
                     x, y = y, x
             elif r < 0.6:
                 y = -x + rng.choice([0, 1, -1, FIXMAX, -FIXMAX - 1])
+            if f == "num_mul" and rng.random() < 0.25:
+                x, y = rng.choice(MULB)
+                x, y = x * rng.choice([1, -1]), y * rng.choice([1, -1])
             if f == "num_mul" and max(abs(x), abs(y)).bit_length() > 1200:
                 y = rng.choice([3, -7, FIXMAX, 1 << 64, -(1 << 70) + 1])
             reqs.append("%s %s %s" % (f, numstr(rng, x), numstr(rng, y)))
@@ -180,7 +255,7 @@ def run_outer(ctx, d, exprs, timeout=30, chunk=1000, max_hangs=3):
 
     def run_range(lo, hi):
         while lo < hi and state["hangs"] < max_hangs:
-            body = [scm.PRELUDE] + ["(verif-case %d %s)" % (i, exprs[i]) for i in range(lo, hi)] + ['(write-string "DONE")(newline)']
+            body = [scm.PRELUDE] + ["(verif-case %d %s)(flush-output-port)" % (i, exprs[i]) for i in range(lo, hi)] + ['(write-string "DONE")(newline)']
             with tempfile.NamedTemporaryFile("w", suffix=".scm", dir=B.SCRATCH, delete=False) as fh:
                 fh.write("\n".join(body))
                 path = fh.name
@@ -274,40 +349,143 @@ def run(ctx):
                 ctx.broken("correspondence:digit-layer:" + q.split()[0], "model and C differ (C result still has the right value): %s model=%s impl=%s" % (q, m, i))
     ctx.sample(dict(kind="inner", request=reqs[0], model=mo[0], impl=io[0]))
     # ------------------------------------------------------------------ outer correspondence
-    exprs, specq, meta = [], [], []
+    cases = gen_outer(ctx, rng, lat, n_out)          # (sig, expr, spec request, key, nontrivial)
+    # radix printing/parsing needs the spec's digits to build the string->number cases
+    rad = gen_radix(rng, lat, 300 if not ctx.thorough else 6000)
+    rso = ctx.run_model(exe, ["spec_radix %x %s" % (r, zhex(z)) for r, z in rad])
+    for (r, z), sp in zip(rad, rso):
+        ds = [int(x, 16) if not x.startswith("-") else -int(x[1:], 16) for x in sp[2:].split(",")]
+        txt = ("-" if ds[0] < 0 else "") + "".join(DIG[v] for v in ds[1:])
+        cases.append(("radix:number->string", '(number->string %s %d)' % (scm.hexlit(z), r), "spec_radix %x %s" % (r, zhex(z)), ("n2s", r, z), abs(z) > FIXMAX))
+        if r > 16:
+            continue      # R7RS defines string->number for radix 2, 8, 10, 16 only; chibi reads digits up to f (see notes)
+        if rng.random() < 0.5:
+            txt = "".join(c.upper() if rng.random() < 0.5 else c for c in txt)
+        cases.append(("radix:string->number", '(string->number "%s" %d)' % (txt, r), "spec1 7 %s" % zhex(z), ("s2n", r, txt), abs(z) > FIXMAX))
+    so = ctx.run_model(exe, [c[2] for c in cases])
+    io = run_outer(ctx, d, [c[1] for c in cases])
+    byop = {}
+    for (sig, e, q, key, nt), sp, i in zip(cases, so, io):
+        ctx.count(1, key=key, nontrivial=nt)
+        byop[sig.split(":")[0]] = byop.get(sig.split(":")[0], 0) + 1
+        if i == "SKIPPED":
+            continue
+        ok, why = _agree(sp, i)
+        if not ok:
+            ctx.violation(sig, input=e, expected=sp, observed=i, why=why,
+                          replay="echo '(import (scheme base) (scheme write) (scheme inexact)) (call-with-values (lambda () %s) (lambda r (write r)))' > /tmp/c04-replay.scm; LD_LIBRARY_PATH=%s CHIBI_MODULE_PATH=%s/lib CHIBI_IGNORE_SYSTEM_PATH=1 %s/chibi-scheme /tmp/c04-replay.scm" % (e.replace("'", "'\\''"), d, d, d))
+    ctx.cov["outer_by_stream"] = byop
+    ctx.sample(dict(kind="outer", expr=cases[0][1], spec=so[0], impl=io[0]))
+    ctx.sample(dict(kind="outer", expr=cases[-1][1], spec=so[-1], impl=io[-1]))
+    ctx.assume("flonum arithmetic, transcendental functions and complex numbers are outside this check")
+    ctx.assume("expt on two fixnums with a result below 2^62/1000 goes through libm pow() and round() (eval.c:1860-1873): covered by the outer correspondence only")
+    ctx.trust("ratio operations (sexp_ratio_*), sexp_ratio_normalize, gcd/lcm (Scheme code in init-7.scm), exact-integer-sqrt's Newton loop and number printing of fixnums are tied to the Z/Q spec by the outer correspondence only (no model)")
+
+
+DIG = "0123456789abcdefghijklmnopqrstuvwxyz"
+# factor pairs whose product lands exactly on / next to the fixnum limits (the overflow test of the fast paths)
+MULB = [(3, (FIXMAX) // 3), ((1 << 31) - 1, (1 << 31) + 1), (1 << 31, 1 << 31), (5, ((1 << 62) + 1) // 5), (1 << 30, 1 << 32), (2, 1 << 61),
+        (2, (1 << 61) - 1), (7, FIXMAX // 7), (7, FIXMAX // 7 + 1)]
+BX = [0, 1, -1, 2, -2, FIXMAX, -FIXMAX, FIXMAX + 1, -FIXMAX - 1, FIXMAX + 2, -FIXMAX - 2, FIXMAX - 1, 1 - FIXMAX,
+      1 << 63, -(1 << 63), B64 - 1, 1 - B64, B64, -B64, B64 + 1, (1 << 124), -(1 << 124), (1 << 128) - 1, 1 - (1 << 128)]
+GUARD2 = "(let ((a %s) (b %s)) (let ((r (call-with-values (lambda () %s) list))) (if (and (equal? a %s) (equal? b %s)) (apply values r) (error \"operand-mutated\"))))"
+GUARD1 = "(let ((a %s)) (let ((r (call-with-values (lambda () %s) list))) (if (equal? a %s) (apply values r) (error \"operand-mutated\"))))"
+QOPS2 = [(0, "(+ a b)"), (1, "(- a b)"), (2, "(* a b)"), (3, "(/ a b)"), (4, "(< a b)"), (5, "(= a b)"), (6, "(> a b)"), (7, "(max a b)"), (8, "(min a b)")]
+QOPS1 = [(0, "(numerator a)"), (1, "(denominator a)"), (2, "(floor a)"), (3, "(ceiling a)"), (4, "(round a)"), (5, "(truncate a)"),
+         (6, "(abs a)"), (7, "(- a)"), (8, "(/ a)"), (9, "(square a)")]
+
+
+def tcls(v):
+    return "f" if -(1 << 62) <= v <= FIXMAX else "b"
+
+
+def gen_outer(ctx, rng, lat, n_out):
+    cases = []
+
+    def bin_case(idx, tmpl, a, b):
+        op = tmpl.split()[0].strip("(")
+        e = GUARD2 % (scm.hexlit(a), scm.hexlit(b), tmpl.format(a="a", b="b"), scm.hexlit(a), scm.hexlit(b))
+        cases.append(("arith:%s:%s%s" % (op, tcls(a), tcls(b)), e, "spec2 %d %s %s" % (idx, zhex(a), zhex(b)), (tmpl, a, b),
+                      abs(a) > FIXMAX or abs(b) > FIXMAX))
+
+    # (1) every pair of the fixnum/bignum boundary values x the division family and + - * (quick),
+    #     x every binary operation (thorough)
+    divfam = [o for o in OPS2 if o[0] in (0, 1, 2, 3, 4, 5, 6, 10, 11)]
+    core = BX[:15] if not ctx.thorough else BX
+    for a in core:
+        for b in core:
+            for idx, tmpl in (OPS2 if ctx.thorough else divfam):
+                if ctx.thorough or rng.random() < 0.5:
+                    bin_case(idx, tmpl, a, b)
+    for x, y in MULB:
+        for sx in (1, -1):
+            for sy in (1, -1):
+                bin_case(2, "(* {a} {b})", sx * x, sy * y)
+                bin_case(2, "(* {a} {b})", sy * y, sx * x)
+    # (2) seeded lattice tuples
     for i in range(n_out):
-        if rng.random() < 0.8:
+        r = rng.random()
+        if r < 0.62:
             idx, tmpl = rng.choice(OPS2)
             a, b = rng.choice(lat), rng.choice(lat)
             if rng.random() < 0.2 and b:
                 a = b * rng.choice(lat[:40] + [1, -1, 3]) + rng.choice([0, 0, 1, -1])   # exact multiples / near-multiples
             if idx in (7, 8) and max(abs(a), abs(b)).bit_length() > 2000:
                 continue
-            exprs.append("(let ((a %s) (b %s)) (let ((r (call-with-values (lambda () %s) list))) (if (and (equal? a %s) (equal? b %s)) (apply values r) (error \"operand-mutated\"))))" % (
-                scm.hexlit(a), scm.hexlit(b), tmpl.format(a="a", b="b"), scm.hexlit(a), scm.hexlit(b)))
-            specq.append("spec2 %d %s %s" % (idx, zhex(a), zhex(b)))
-            meta.append((tmpl, a, b))
-        else:
+            bin_case(idx, tmpl, a, b)
+        elif r < 0.67:                # expt: bignum and fixnum bases, exponent 0..40 (result bounded)
+            a = rng.choice(lat + BX)
+            e = rng.choice([0, 1, 2, 3, 5, 10, 17, 31, 40, rng.randrange(0, 41)])
+            if abs(a).bit_length() * max(e, 1) > 12000:
+                e = rng.choice([0, 1, 2, 3])
+            bin_case(9, "(expt {a} {b})", a, e)
+        elif r < 0.80:
             idx, tmpl = rng.choice(OPS1)
             a = rng.choice(lat)
             if rng.random() < 0.3:
                 a = a * a + rng.choice([-1, 0, 1])
-            exprs.append(tmpl.format(a=scm.hexlit(a)))
-            specq.append("spec1 %d %s" % (idx, zhex(a)))
-            meta.append((tmpl, a, None))
-    so = ctx.run_model(exe, specq)
-    io = run_outer(ctx, d, exprs)
-    for e, s, i, m in zip(exprs, so, io, meta):
-        big = abs(m[1]) > FIXMAX or (m[2] is not None and abs(m[2]) > FIXMAX)
-        ctx.count(1, key=(m[0], m[1], m[2]), nontrivial=big)
-        if i == "SKIPPED":
-            continue
-        ok, why = _agree(s, i)
-        if not ok:
-            ctx.violation("arith:" + m[0].split()[0].strip("("), input=e, expected=s, observed=i, why=why,
-                          replay="echo '(import (scheme base) (scheme write)) (write %s)' | chibi-scheme /dev/stdin" % e)
-    ctx.sample(dict(kind="outer", expr=exprs[0], spec=so[0], impl=io[0]))
-    ctx.assume("flonum arithmetic, transcendental functions and complex numbers are outside this check")
+            e = GUARD1 % (scm.hexlit(a), tmpl.format(a="a"), scm.hexlit(a))
+            cases.append(("arith:%s:%s" % (tmpl.split()[0].strip("("), tcls(a)), e, "spec1 %d %s" % (idx, zhex(a)), (tmpl, a), abs(a) > FIXMAX))
+        elif r < 0.84:                # exact <-> inexact on exactly representable integers m * 2^k
+            m = rng.getrandbits(rng.choice([1, 20, 52, 53])) * rng.choice([1, -1])
+            a = m << rng.choice([0, 1, 10, 11, 63, 64, 100, 500, 900])
+            cases.append(("convert:exact-inexact:%s" % tcls(a), "(exact (inexact %s))" % scm.hexlit(a), "spec1 7 %s" % zhex(a), ("ei", a), abs(a) > FIXMAX))
+        else:                         # rationals
+            def frac():
+                n = rng.choice(lat[:60] + BX + [rng.getrandbits(rng.choice([3, 30, 62, 64, 130])) * rng.choice([1, -1])])
+                dd = rng.choice([1, 2, 3, 4, 6, 7, 10, 1 << 62, -(1 << 62), (1 << 62) - 1, 1 << 64, -(1 << 64), (1 << 64) + 1,
+                                 rng.getrandbits(rng.choice([3, 30, 62, 64, 130])) + 1]) * rng.choice([1, 1, -1])
+                if rng.random() < 0.25:
+                    g = rng.choice([2, 3, 1 << 32, 1 << 64, (1 << 64) - 1])
+                    n, dd = n * g, dd * g
+                return n, dd
+            n1, d1 = frac()
+            if rng.random() < 0.6:
+                idx, tmpl = rng.choice(QOPS2)
+                n2, d2 = frac()
+                if rng.random() < 0.15:
+                    n2, d2 = n1 + rng.choice([0, 1, -1]), d1
+                e = "(let ((a (/ %s %s)) (b (/ %s %s))) (let ((r %s)) (if (and (equal? a (/ %s %s)) (equal? b (/ %s %s))) r (error \"operand-mutated\"))))" % (
+                    scm.hexlit(n1), scm.hexlit(d1), scm.hexlit(n2), scm.hexlit(d2), tmpl, scm.hexlit(n1), scm.hexlit(d1), scm.hexlit(n2), scm.hexlit(d2))
+                cases.append(("ratio:%s" % tmpl.split()[0].strip("("), e, "specq2 %d %s %s %s %s" % (idx, zhex(n1), zhex(d1), zhex(n2), zhex(d2)),
+                              (tmpl, n1, d1, n2, d2), True))
+            else:
+                idx, tmpl = rng.choice(QOPS1)
+                e = "(let ((a (/ %s %s))) (let ((r %s)) (if (equal? a (/ %s %s)) r (error \"operand-mutated\"))))" % (
+                    scm.hexlit(n1), scm.hexlit(d1), tmpl, scm.hexlit(n1), scm.hexlit(d1))
+                cases.append(("ratio:%s" % tmpl.split()[0].strip("("), e, "specq1 %d %s %s" % (idx, zhex(n1), zhex(d1)), (tmpl, n1, d1), True))
+    return cases
+
+
+def gen_radix(rng, lat, n):
+    out = []
+    for i in range(n):
+        z = rng.choice(lat + BX)
+        if z.bit_length() > 1500:
+            z = rng.choice(BX)
+        r = rng.choice([2, 3, 7, 8, 10, 16, 17, 35, 36, rng.randrange(2, 37)])
+        out.append((r, z))
+    return out
 
 
 def _agree(spec, impl):
@@ -323,6 +501,23 @@ def _agree(spec, impl):
     if spec.startswith("B "):
         return impl == ("#t" if spec[2] == "1" else "#f"), "boolean"
     exp = [int(x, 16) for x in spec[2:].split(",")]
+    if impl.startswith('"'):                      # number->string: sign + digit values
+        txt = impl.strip('"')
+        sign = -1 if txt.startswith("-") else 1
+        body = txt[1:] if sign < 0 else txt
+        try:
+            got = [sign] + [DIG.index(c) for c in body]
+        except ValueError:
+            return False, "character that is not a digit"
+        return got == exp, "digits"
+    if "/" in impl and " " not in impl:           # a ratio n/d in decimal: must be the reduced pair
+        try:
+            n, dd = [int(x) for x in impl.split("/")]
+        except ValueError:
+            return False, "unparsable ratio"
+        return len(exp) == 2 and [n, dd] == exp and dd > 1, "ratio not equal to the reduced fraction with positive denominator"
+    if len(exp) == 2 and exp[1] == 1 and " " not in impl:   # rational spec whose value is an integer
+        exp = exp[:1]
     got = impl.split(" ")
     if len(got) != len(exp):
         return False, "number of values"
@@ -394,6 +589,42 @@ def _judge_inner(q, out):
             q, r_ = [_num(x) for x in res.split(" ")]
             same = ops == "%s %s %s %s" % (f[1], f[2], f[3], f[4])
             return same and a == q * b + r_ and abs(r_) < abs(b) and (r_ == 0 or (r_ < 0) == (a < 0))
+        if f[0] in ("num_quotient", "num_remainder", "vm_quotient", "vm_remainder"):
+            x, y = _num(f[1]), _num(f[2])
+            if y == 0:
+                return out == "EXC"
+            q = abs(x) // abs(y) * (1 if (x < 0) == (y < 0) else -1)
+            e = q if f[0].endswith("quotient") else x - q * y
+            return _num(out) == e and out.startswith("f:") == (-(1 << 62) <= e <= FIXMAX)
+        if f[0].startswith("ratio_"):
+            from fractions import Fraction
+            v = [_num(x) for x in f[1:]]
+            if f[0] == "ratio_compare":
+                e = Fraction(v[0], v[1]) - Fraction(v[2], v[3])
+                return int(out) == (e > 0) - (e < 0)
+            e = (Fraction(v[0], v[1]) if f[0] == "ratio_normalize" else Fraction(v[0], v[1]) + Fraction(v[2], v[3]) if f[0] == "ratio_add"
+                 else Fraction(v[0], v[1]) * Fraction(v[2], v[3]) if f[0] == "ratio_mul" else Fraction(v[0], v[1]) / Fraction(v[2], v[3]))
+            canon = lambda t, z: t.startswith("f:") == (-(1 << 62) <= z <= FIXMAX)
+            if out.startswith("R "):
+                _, n_, d_ = out.split(" ")
+                return e.denominator != 1 and _num(n_) == e.numerator and _num(d_) == e.denominator and canon(n_, e.numerator) and canon(d_, e.denominator)
+            return e.denominator == 1 and _num(out) == e.numerator and canon(out, e.numerator)
+        if f[0] == "num_compare":
+            x, y = _num(f[1]), _num(f[2])
+            return int(out) == (x > y) - (x < y)
+        if f[0] == "bignum_sqrt":
+            import math
+            v = _val(f[1])
+            s_, r_ = out.split(" ")
+            return _num(s_) == math.isqrt(v) and _num(r_) == v - math.isqrt(v) ** 2
+        if f[0] == "bignum_expt":
+            e = big(f[1], f[2]) ** int(f[3])
+            return _num(out) == e and out.startswith("f:") == (-(1 << 62) <= e <= FIXMAX)
+        if f[0] == "write_bignum":
+            return int(out, int(f[2])) == _val(f[1]) and (out == "0" or not out.startswith("0"))
+        if f[0] == "read_number":
+            e = int(f[2], int(f[1]))
+            return _num(out) == e and out.startswith("f:") == (e <= FIXMAX)
         if f[0] in ("num_add", "num_sub", "num_mul", "vm_add", "vm_sub"):
             x, y = _num(f[1]), _num(f[2])
             if f[0] == "num_sub" and f[1][0] == "f" and f[2][0] == "f" and not (-(1 << 62) <= x - y <= FIXMAX):
